@@ -55,6 +55,12 @@ func (o OracleC06) After(x *Exec, op *Op, res *Res) {
 		if !pa.TotalTokens.Equal(a.TotalTokens) {
 			x.Fail("C06", "conservation", "slash changed the staked total of %s from %s to %s", denom, a.TotalTokens, pa.TotalTokens)
 		}
+		if x.PrecisionCollapsed(denom) || degenerateAsset(pre, denom) || orphanedValidator(pre, denom) || a.TotalValidatorShares.IsNegative() {
+			// listed finding F-C04a: no meaningful share prices in this asset any more (value was
+			// concentrated by a near-total slash, is ownerless, or the share total is dust-negative)
+			x.Label("c06:ownerless-value-state")
+			continue
+		}
 		sv, has := pre.Vals[op.V].ValShares[denom]
 		if !has || !sv.IsPositive() || a.TotalValidatorShares.IsZero() || a.TotalTokens.IsZero() {
 			// the slashed validator holds nothing of this asset: every position keeps its value exactly
